@@ -111,7 +111,11 @@ func writeEvidence(p string, spec *propSpec, tier string, seed uint64, a *sim.Ag
 		},
 	}
 	if concInfo != nil {
-		ev["coverage"].(map[string]interface{})["concurrent_hands"] = concInfo
+		key := "concurrent_hands"
+		if spec.GenS > 0 {
+			key = "generated_scheduling_points"
+		}
+		ev["coverage"].(map[string]interface{})[key] = concInfo
 	}
 	dir := filepath.Join(verifDir(), "evidence")
 	if d := os.Getenv("VERIF_EVIDENCE_DIR"); d != "" {
